@@ -7,7 +7,7 @@ package commands
 //@ prelude c18
 
 //@ func Validate()
-//@   requires exitCode < 0 && !opaRejected && !opaEvaluated
+//@   requires exitCode < 0 && !opaRejected && !opaEvaluated && !ldRejected
 //@   ensures [C18:exits] exitCode >= 0
 //@   ensures [C18:failure-is-silent] exitCode != 0 ==> stdout == old(stdout)
 //@   ensures [C18:failure-status] libReportErr(fileText(os.Args[2]), fileText(os.Args[3])) != nil ==> exitCode != 0
@@ -15,19 +15,19 @@ package commands
 //@   ensures [C18:file] exitCode == 0 && len(os.Args) == 5 ==> (fsContent == libReport(fileText(os.Args[2]), fileText(os.Args[3])) && stdout == old(stdout))
 
 //@ func Generate()
-//@   requires exitCode < 0 && !opaRejected && !opaEvaluated
+//@   requires exitCode < 0 && !opaRejected && !opaEvaluated && !ldRejected
 //@   ensures [C18:exits] exitCode >= 0
 //@   ensures [C18:failure-is-silent] exitCode != 0 ==> stdout == old(stdout)
 //@   ensures [C18:failure-status] libRegoErr(fileText(os.Args[2])) != nil ==> exitCode != 0
 //@   ensures [C18:stdout] exitCode == 0 ==> stdout == old(stdout) + libRegoCode(fileText(os.Args[2])) + "\n"
 
 //@ func Normalize()
-//@   requires exitCode < 0 && !opaRejected && !opaEvaluated
+//@   requires exitCode < 0 && !opaRejected && !opaEvaluated && !ldRejected
 //@   ensures [C18:exits] exitCode >= 0
 //@   ensures [C18:failure-is-silent] exitCode != 0 ==> stdout == old(stdout)
 //@   ensures [C18:failure-status] libNormalizedErr(fileText(os.Args[2])) != nil ==> exitCode != 0
 //@   ensures [C18:stdout] exitCode == 0 ==> stdout == old(stdout) + libEncode(libNormalized(fileText(os.Args[2]))) + "\n"
 
 //@ func Compile()
-//@   requires exitCode < 0 && !opaRejected && !opaEvaluated
+//@   requires exitCode < 0 && !opaRejected && !opaEvaluated && !ldRejected
 //@   ensures [C18:exits] exitCode >= 0
